@@ -232,7 +232,8 @@ class Cell(NullCell):
             payload += ser_result
             serialized_cells_len.append(len(ser_result))
 
-        payload_len = (len(payload).bit_length() + 7) // 8
+        # with cache bits the index stores offset * 2 + cacheable flag, so off_bytes must hold the doubled value
+        payload_len = ((len(payload) << bool(has_cache_bits)).bit_length() + 7) // 8
 
         root_num = 1  # currently 1
         root_index = b'\00' * cells_len
@@ -249,8 +250,11 @@ class Cell(NullCell):
                  root_index
 
         if has_idx:
+            # index entry = end offset of the cell inside the cells data (doubled when cache bits are on)
+            offset = 0
             for l in serialized_cells_len:
-                result += l.to_bytes(payload_len, 'big')
+                offset += l
+                result += (offset << bool(has_cache_bits)).to_bytes(payload_len, 'big')
         result += payload
         if hash_crc32:
             result += crc32c(result)
